@@ -9,7 +9,7 @@ import (
 
 var setsMu sync.RWMutex
 
-func CompileToGetCodeSet(ctx *RuntimeContext, typeptr uintptr) (*OpcodeSet, error) {
+func compileToGetCodeSet(typeptr uintptr) (*OpcodeSet, error) {
 	initEncoder()
 	if typeptr > typeAddr.MaxTypeAddr || typeptr < typeAddr.BaseTypeAddr {
 		codeSet, err := compileToGetCodeSetSlowPath(typeptr)
@@ -17,9 +17,7 @@ func CompileToGetCodeSet(ctx *RuntimeContext, typeptr uintptr) (*OpcodeSet, erro
 			return nil, err
 		}
 		verifSlot(false, 0, typeptr, codeSet)
-		filtered, err := getFilteredCodeSetIfNeeded(ctx, codeSet)
-		verifProgram(typeptr, filtered)
-		return filtered, err
+		return codeSet, nil
 	}
 	index := (typeptr - typeAddr.BaseTypeAddr) >> typeAddr.AddrShift
 	setsMu.RLock()
@@ -27,13 +25,7 @@ func CompileToGetCodeSet(ctx *RuntimeContext, typeptr uintptr) (*OpcodeSet, erro
 	setsMu.RUnlock()
 	if codeSet != nil {
 		verifSlot(true, index, typeptr, codeSet)
-		// the filter may encode the field query itself, which takes setsMu again
-		filtered, err := getFilteredCodeSetIfNeeded(ctx, codeSet)
-		if err != nil {
-			return nil, err
-		}
-		verifProgram(typeptr, filtered)
-		return filtered, nil
+		return codeSet, nil
 	}
 
 	codeSet, err := newCompiler().compile(typeptr)
@@ -41,13 +33,8 @@ func CompileToGetCodeSet(ctx *RuntimeContext, typeptr uintptr) (*OpcodeSet, erro
 		return nil, err
 	}
 	verifSlot(true, index, typeptr, codeSet)
-	filtered, err := getFilteredCodeSetIfNeeded(ctx, codeSet)
-	if err != nil {
-		return nil, err
-	}
 	setsMu.Lock()
 	cachedOpcodeSets[index] = codeSet
 	setsMu.Unlock()
-	verifProgram(typeptr, filtered)
-	return filtered, nil
+	return codeSet, nil
 }
